@@ -46,3 +46,42 @@ LEVEL_TEXT = {
 TECHNIQUE = {}
 NOT_APPLICABLE = {p: "check under construction in this round: the property is expressible in the Coq model (see DESIGN.md section 6) but is not claimed until its theorem and correspondence run end to end"
                   for p in ["C02", "C03", "C04", "C05", "C08", "C09", "C10", "C11", "C14", "C15", "C19", "C20"]}
+
+LEVEL_TEXT.update({
+ "C02": dict(text="Theorem C02_restart_transparent: for every history of API calls with restarts (close + open) anywhere, any number of times, from an empty "
+                  "directory, every segment size and key type: the outputs equal the ordered map's on the history with the restarts erased, every open succeeds, and "
+                  "the invariant Inv (memory, CAS, on-disk snapshot and log) holds at the end; C02_observations_equal: keys, refcounts, unique_blobs, total_bytes "
+                  "identical with and without restarts; C02_one_restart from any Inv state (replay skipping versions <= snapshot, next version above everything, "
+                  "after-replay checkpoint, pruning). K2 with close/open and checkpoints at random positions; oracle: state before close == state after open on the real library.",
+             note=BASE_NOTE + "hist_fits: sizes within the on-disk format's fields; c_pre=false. stats.index.serialized_size_bytes is specified as the index file's length "
+                              "(proved in C02_one_restart), not compared across a reopen that checkpoints."),
+ "C10": dict(text="Theorems C10_truncation / C10_any_truncation_yields_a_prefix / C10_payload_change_detected / C10_checksum_change_detected / "
+                  "C10_accepted_records_are_checksummed (framing layer, any hash function) and C10_damage / C10_never_panics / C10_never_applies_an_altered_operation "
+                  "(store at rest, any uncheckpointed record damaged: open_store fails with an error or yields exactly the state after the undamaged prefix). "
+                  "K3: every truncation offset and single-bit change of checksum/payload bytes of every uncheckpointed record of logs from random histories, incl. "
+                  "logs spanning two segments, opened by the real Cas::open vs the model and vs the prefix state.",
+             note=BASE_NOTE + "Payload changes are detected unless the damaged payload collides with the original under BLAKE3 (explicit hypothesis). A truncation "
+                              "means the log is cut short (later segments gone). 'Never panics' for the real code is K3 sampling under catch_unwind."),
+ "C11": dict(text=LEVEL_TEXT["C11"]["text"], note=LEVEL_TEXT["C11"]["note"]),
+ "C14": dict(text="Theorems C14_put_fault_contained, C14_fault_contained_partial, C14_reads_stay_correct_partial for EVERY fault plan: no operation panics, every "
+                  "operation returns, other keys keep exactly their content, keys of a failed operation hold old or new, every later read agrees with such a map "
+                  "(one process lifetime). The reopen clause is REFUTED on the known class F4 (C14_refuted_on_known_class, witness by vm_compute; the same history "
+                  "fails on the real code: KNOWN-FINDING F4). K5: one EIO injected at every effective filesystem call of every history on the real library vs the model's "
+                  "run under the same fault, then reads, two restarts and reads.",
+             note=BASE_NOTE + "Partial: full statement false for model and code (finding F4, recorded in known_findings.json, not repaired). 'Never hangs' for the real "
+                              "code is the harness time-out."),
+ "C19": dict(text="Theorems C19_rejected_before_anything_is_modified (wrong segment size, wrong stored version or unparsable settings: Err, filesystem literally "
+                  "unchanged, only recorded call = CCreate of the empty LOCK), C19_rejected_open_is_invisible (any later history behaves identically), "
+                  "C19_reopen_with_other_n_rejected, C19_first_open_records_the_choice, C19_stored_choice_wins. K3: creation value x reopen value, stored versions, "
+                  "directory compared byte for byte before/after the rejected open on the real library.",
+             note=BASE_NOTE + "serde_json rendering of db_settings.json is trusted (the model stores the typed document). 'Pre-creation does not change behaviour "
+                              "observably' is checked on the real library only (same history with and without the tree); no theorem for it."),
+ "C20": dict(text="Theorem C20_at_rest: under DiskOk (preserved by every operation and restart: C02) every segment parses into complete checksummed records whose "
+                  "versions lie in (i*N,(i+1)*N], strictly increase through the log, every version above the snapshot's is present, the snapshot decodes, and a "
+                  "declarative reader (snapshot, then records above its version) yields exactly the acknowledged key map; C20_restart_keeps_next_version (no reuse "
+                  "across restarts). Every-instant part: the harness's independent decoder (written from the format comments) parses index and *.wal at every kill "
+                  "point of the real library and compares with the acknowledged history; the crash invariant theorem is in props/C03.v when claimed.",
+             note=BASE_NOTE + "The at-every-instant clause is a theorem only through the crash development (C03); until that is claimed it is covered by K4 + the independent decoder."),
+})
+for _p in ["C02", "C10", "C11", "C14", "C19", "C20"]:
+    NOT_APPLICABLE.pop(_p, None)
